@@ -21,7 +21,11 @@ def gen(tier, rng, shard, nshards):
                 "colscale": S.pick(rng, [None, None, None, "tiny", "mixed"]), "opscale": float(S.pick(rng, [1.0, 1.0, 1.0, 1e-9, 1e9]))}
         if 2 <= n <= 8 and rng.random() < 0.12:
             case["cols"] = n  # a square right-hand-side block: as many columns as the operator has rows
-        if rng.random() < 0.15:
+        if rng.random() < 0.05:
+            # a matrix-free operator whose product hands back a *view* of its operand (the exchange matrix, X -> X[::-1]): the
+            # routine must not update its working vector in place
+            case.update(opview=True, rhs="generic", colscale=None, opscale=1.0, narrow_rhs=None, wide_rhs=False, n=int(S.pick(rng, [2, 3, 4, 6, 8])), normal=True)
+        if not case.get("opview") and rng.random() < 0.15:
             # right-hand-side columns living in two invariant subspaces on which the operator acts at very different scales
             # (every column sees one scale only, but the columns of one call see different ones)
             # Kept small and normal: rounding couples the two subspaces at eps*scale and every further product amplifies the
@@ -88,6 +92,8 @@ def build(case):
         M = V @ Bk @ np.linalg.inv(V)
         evecs = None
     M = (M * case.get("opscale", 1.0)).astype(P.DT[dt])  # the routines are scale invariant: operators in tiny / huge units
+    if case.get("opview"):
+        M = np.eye(n)[::-1].copy().astype(P.DT[dt])
     cols = max(case["cols"], 1)
     degree = None
     LAST.clear()
@@ -186,6 +192,8 @@ def min_residual(M, b, x0, m):
 
 def run_gmres(ctx, case, M, b, x0, m, counter):
     A = counting_operator(M, counter)
+    if case.get("opview"):
+        A = cola.ops.LinearOperator(M.dtype, M.shape, matmat=lambda X: X[::-1])
     if case["via"] == "gmres":
         from cola.linalg.inverse.gmres import gmres
         if case["seed"] % 3 == 0:  # the documented positional form gmres(A, rhs, x0, max_iters, tol)
